@@ -84,7 +84,8 @@ def gen_shape(rng, params):
     ukw = {}
     for nm in sorted(set(UKW + pnames + ["zz"])):
         if rng.random() < 0.35:
-            ukw[nm] = "U_" + nm
+            # a supplied value stays a supplied value also when it is None / falsy
+            ukw[nm] = "U_" + nm if rng.random() < 0.8 else rng.choice([None, None, 0, False, ""])
     if rng.random() < 0.25:
         nm = rng.choice(ODD_UKW)
         ukw[nm] = "U_" + nm
